@@ -73,7 +73,7 @@ func TestC09_Params(t *testing.T) {
 		doc := jv.VObj([]jv.Member{{K: "a", V: subj}, {K: "s", V: jv.VStr("a,b,,aab,a")}, {K: "arr", V: jv.VArr([]jv.Val{jv.VInt(1), jv.VInt(2), jv.VInt(3)})}})
 		big := func(label string) ast.Expr { return ast.Lit(jv.VInt(gen.HostileInt(t, n))) }
 		var e ast.Expr
-		kind := rapid.IntRange(0, 15).Draw(t, "kind")
+		kind := rapid.IntRange(0, 17).Draw(t, "kind")
 		var floatDoc *run.Node
 		label := ""
 		switch kind {
@@ -121,6 +121,38 @@ func TestC09_Params(t *testing.T) {
 		case 10:
 			e = ast.Call("to_number", ast.A(ast.RawS(gen.Pick(t, "bignum", bigNumTexts))))
 			label = "to_number-text"
+		case 16, 17:
+			// integer arguments written as number text with an enormous exponent:
+			// zero stays zero whatever the exponent says (0e9000000000000000000),
+			// and everything else is out of range at once; neither may cost
+			// time proportional to the exponent
+			txt := gen.Pick(t, "hugeexp", []string{"0e1000000000", "0e9000000000000000000", "-0e18446744073709551615", "0E+4000000000", "0.0e99999999999", "0e-9000000000000000000", "0.000e+123456789012",
+				"1e1000000000", "1e9000000000000000000", "-1E+999999999999", "1e-9000000000000000000", "10e-1000000000", "0e18446744073709551616", "0e99999999999999999999999"})
+			hv := jv.VInt(0)
+			hv.T = txt // (the renderer writes the text; the value is not used here)
+			lit := ast.Lit(hv)
+			switch rapid.IntRange(0, 7).Draw(t, "intarg") {
+			case 0:
+				e = ast.Call(gen.Pick(t, "padfn", []string{"pad_left", "pad_right"}), ast.A(ast.F("s")), ast.A(lit))
+			case 1:
+				e = ast.Call("find_first", ast.A(ast.F("s")), ast.A(ast.RawS("a")), ast.A(lit))
+			case 2:
+				e = ast.Call("find_last", ast.A(ast.F("s")), ast.A(ast.RawS("a")), ast.A(ast.Lit(jv.VInt(0))), ast.A(lit))
+			case 3:
+				e = ast.Call("replace", ast.A(ast.F("s")), ast.A(ast.RawS("a")), ast.A(ast.RawS("b")), ast.A(lit))
+			case 4:
+				e = ast.Call("split", ast.A(ast.F("s")), ast.A(ast.RawS(",")), ast.A(lit))
+			case 5:
+				e = ast.Bin(gen.Pick(t, "hop", []string{"+", "*", "//", "%", "==", "<"}), lit, ast.Lit(jv.VInt(3)))
+			case 6:
+				e = ast.Call(gen.Pick(t, "hfn", []string{"abs", "ceil", "floor", "to_string", "sum", "type"}), ast.A(lit))
+				if c, ok := e.(*ast.Chain); ok && c.Head.Name == "sum" {
+					c.Head.Args = []ast.Arg{ast.A(&ast.Chain{Head: ast.Head{Kind: ast.HMultiList, Items: []ast.Expr{lit, lit}}})}
+				}
+			default:
+				e = ast.Call("to_number", ast.A(ast.RawS(txt)))
+			}
+			label = "huge-exponent-text"
 		case 14, 15:
 			// arithmetic on Go floats of extreme magnitude (the float paths
 			// have their own code): quotients beyond 2^53, subnormals, the
